@@ -496,6 +496,9 @@ func (p *Pegnet) SelectRichList(ticker fat2.PTicker, count int) ([]BalancePair, 
 
 		res = append(res, pair)
 	}
+	if err := rows.Err(); err != nil {
+		return nil, err
+	}
 
 	return res, nil
 }
@@ -705,6 +708,9 @@ func (p *Pegnet) SelectAllBalances() ([]BalancesPair, error) {
 		bp.Address = &fa
 
 		res = append(res, bp)
+	}
+	if err := rows.Err(); err != nil {
+		return nil, err
 	}
 	return res, nil
 }
